@@ -145,6 +145,9 @@ func VerifFileConcurrent() {
 				hi++
 			}
 			verifNativeUnlock()
+			if verifBool("late") {
+				verifYield() // first access to the page only later (e.g. while a commit waits for this reader)
+			}
 			rp, perr := rtx.Page(id0)
 			verifAssert(perr == nil, "page access")
 			b, berr := rp.Bytes()
@@ -266,6 +269,17 @@ func VerifShadow() {
 	verifAssert(err2 == nil, "BeginReadonly during a write transaction")
 	checkView(rtx2, s.m, "reader begun during the write transaction")
 	checkView(tx, w, "the writer sees its own changes")
+	// pages that exist only in the running write transaction are invisible to readers
+	committedEnd := s.f.getMetaPage().dataEndMarker.Get()
+	for i := range w.pages {
+		id := w.pages[i].id
+		if s.m.find(id) >= 0 || id < committedEnd {
+			continue
+		}
+		_, e1 := rtx.Page(id)
+		_, e2 := rtx2.Page(id)
+		verifAssert(e1 != nil && e2 != nil, "a page allocated by the running write transaction beyond the committed end of the file cannot be accessed by a reader")
+	}
 	if verifBool("rollback") {
 		verifAssert(tx.Rollback() == nil, "Rollback")
 	} else {
